@@ -126,6 +126,19 @@ def pre_case(case, env):
         else:
             info.update({"exit": 0, "killed": 0, "when": "after", "stderr": 0, "emitted": body})
         files.append(info)
+    # --glob-case-insensitive is documented for -g/--glob only: a file whose
+    # name matches a --pre-glob only when case is ignored stays unselected
+    # (its side-car configuration would make the command upper-case it and fail)
+    gci = []
+    if rng.chance(1, 3):
+        gci = ["--glob-case-insensitive"]
+        body = gen_body(rng, False)
+        with open(os.path.join(d, "G9.PP"), "wb") as f:
+            f.write(body)
+        with open(os.path.join(d, "G9.PP.cfg"), "w") as f:
+            f.write("exit_status=3\nwhen=after\nstderr_bytes=10\ntransform=upper\nkillme=0\ncut=0\n")
+        files.append({"name": "G9.PP", "selected": False, "body": body, "exit": 0, "killed": 0, "when": "after",
+                      "stderr": 0, "emitted": body, "upper_case_name": True})
     pattern = "needle" if rng.chance(3, 4) else "NEEDLE"
     side = os.path.join(env.tmp, "side")
     os.makedirs(side)
@@ -136,7 +149,7 @@ def pre_case(case, env):
     # positive glob; exclusions only ("precede a glob with a ! to exclude
     # it": whatever is not excluded goes to the command); and mixtures where
     # the last matching glob decides
-    gstyle = rng.below(4)
+    gstyle = rng.below(4) if not gci else rng.pick([0, 3])
     globs = [["--pre-glob", "*.pp"],
              ["--pre-glob", "!*.txt", "--pre-glob", "!*.cfg"],
              ["--pre-glob", "*", "--pre-glob", "!*.txt", "--pre-glob", "!*.cfg"],
@@ -149,7 +162,7 @@ def pre_case(case, env):
         for threads in (["-j1", "-j4"] if tier == "thorough" else [rng.pick(["-j1", "-j4"])]):
             rep["evaluations"] += 1
             argv = ["--no-config", "--color", "never", "--no-heading", "-H", "-n", threads, "--pre", script] + globs + \
-                margs + ["-e", pattern, "t"]
+                gci + margs + ["-e", pattern, "t"]
             r = common.run_rg(argv, env.tmp, env.home, timeout=180)
             if r is None:
                 env.viol("C18:%s:did-not-finish" % mname,
